@@ -18,6 +18,15 @@ from vp.refs import hytera_ref as ref
 
 LEVEL = "exploration"
 RULE = (
+    "(a) deterministic boundary pass, both tiers, per opcode on two seeded backgrounds, one change at a time: every integer "
+    "field of the PDU / HRNP header / HSTRP envelope at {min, min+1, max-1, max, top bit only} (+ 2^24-1, 2^24 for 32-bit ids, "
+    "0xFF, 0x100 for 16-bit numbers), GPS fields at their edges, variable-length fields (text, short data, option data, "
+    "alias, raw payload, config / settings lists) at 0/1/127/128/255/256/300 and at the lengths that put 0x00 / 0xFF into the "
+    "low or high octet of the HDAP length field, the TMP option-length field and the HRNP total length (up to the 65516-"
+    "octet payload that fills an HRNP packet), HDAP checksum steered to 0x00 / 0xFF and HRNP checksum steered to 0x0000 / "
+    "0x0001 / 0xFFFE / a second end-around carry (one octet / the packet number solved on the reference), HSTRP option "
+    "lists: none, each type alone, the same option 2x / 6x, 16 options, option data of 0/1/127/128/255 octets; all 32 "
+    "HSTRP type-bit combinations and all HRNP control opcodes in 'transport'.  (b) "
     "Hypothesis, one strategy per implemented opcode (RRS 5, LP 2, TMP 8, RCP 17 incl. the pass-through 'UnknownService'), "
     "in-range fields only (radio ids 0..2^24-1, RCP ids 0..2^32-1, request ids 0..2^32-1, subnet 0..255, every defined enum "
     "member, UTF-16 text, option data 0..n octets, GPS: valid flag, time/date or the all-NUL form, ddmm.mmmm / dddmm.mmmm on the "
@@ -604,18 +613,408 @@ def record_transport(case, t: Tally):
         t.case("transport", key=case, nontrivial=bool(env["options"]) or any(env["flags"].values()), cls=f"hstrp.options_{len(env['options'])}")
 
 
+# ------------------------------------------------------------------------------ deterministic boundary pass (quick + thorough)
+#
+# Not left to Hypothesis' bias: for every opcode two seeded background cases; on each background, one at a time,
+#   * every integer field (PDU fields, HRNP header, HSTRP envelope) at {min, min+1, max-1, max, top bit only} (+ 2^24-1 / 2^24
+#     for 32-bit ids, 0xFF / 0x100 for 16-bit numbers), GPS fields at their own edges,
+#   * every variable-length field at {0, 1, 127, 128, 255, 256, ...} and at the lengths that put 0x00 / 0xFF into the low or
+#     the high octet of the HDAP length field, of the TMP option-length field and of the HRNP total-length field, up to the
+#     largest PDU an HRNP packet can carry (HDAP payload 65516 octets),
+#   * the HDAP checksum octet steered to 0x00 and 0xFF, the HRNP checksum steered to 0x0000 / 0x0001 / 0xFFFE and into the
+#     double-carry class (one free octet / the packet number solved on the reference),
+#   * HSTRP option lists: none, one of every type, the same option repeated, 16 options, option data of 0/1/127/128/255 octets.
+
+EDGE_LEN = [255, 256, 257, 511, 512] + [t - 19 for t in (0xFF, 0x100, 0x1FF, 0x200)]  # HDAP payload lengths with 0x00 / 0xFF in the low octet of
+#                                                                        the HDAP length field / of the HRNP total length (= payload + 19)
+HUGE_LEN = [0xFEFF, 0xFF00, 0xFF00 - 19, 65516]  # ... in the high octet; 65516 = largest HDAP payload an HRNP packet can carry (total 0xFFFF)
+HUGE_OPS = ("PrivateShortData", "SendPrivateMessageAck", "SendPrivateMessage", "UnknownService")  # one opcode per shape gets the 64 KiB cases
+
+
+def _lens(op):
+    return EDGE_LEN + (HUGE_LEN if op in HUGE_OPS else [])
+
+
+PLAIN = [0, 1, 127, 128, 255, 256, 300]
+
+
+def _enum_names():
+    from okdmr.dmrlib.etsi.layer3.elements.talker_alias_data_format import TalkerAliasDataFormat
+    from okdmr.dmrlib.hytera.pdu import location_protocol as lp
+    from okdmr.dmrlib.hytera.pdu import radio_control_protocol as rcp
+    from okdmr.dmrlib.hytera.pdu import radio_registration_service as rrs
+    from okdmr.dmrlib.hytera.pdu import text_message_protocol as tmp
+
+    n = lambda e: [m.name for m in e]
+    return {"rrs_result": n(rrs.RRSResult), "rrs_state": n(rrs.RRSRadioState), "lp_result": n(lp.LocationProtocolResultCodes), "tmp_result": n(tmp.TMPResultCodes),
+            "rcp_result": n(rcp.RCPResult), "call_type": n(rcp.RCPCallType), "mode": n(rcp.RepeaterMode), "status": n(rcp.RepeaterStatus),
+            "service": n(rcp.RepeaterServiceType), "ip_target": n(rcp.RadioIpIdTarget), "alias_format": n(TalkerAliasDataFormat),
+            "sc_target": n(rcp.StatusChangeNotificationTargets), "sc_setting": n(rcp.StatusChangeNotificationSetting),
+            "rcp_defined": sorted(m.value for m in rcp.RCPOpcode)}
+
+
+NATURAL_OPTION_LEN = {"RTP": 0, "DeviceID": 4, "ChannelID": 1, "XPTSiteID": 1, "XPTIndex": 1, "XPTChannelType": 1}
+
+
+def _rand_envelopes(rng):
+    opts = [[nm, rng.randbytes(NATURAL_OPTION_LEN[nm]).hex()] for nm in rng.sample(sorted(NATURAL_OPTION_LEN), rng.choice([0, 0, 1, 2, 3]))]
+    hb = rng.random() < 0.2 and not opts
+    hrnp = {"version": rng.randrange(5), "block": rng.randrange(256), "src": rng.randrange(256), "dst": rng.randrange(256), "pn": rng.randrange(65536)}
+    hstrp = {"version": rng.choice([0, rng.randrange(256)]), "sn": rng.randrange(65536), "options": opts,
+             "flags": {"have_options": bool(opts), "is_reject": rng.random() < 0.2, "is_close": rng.random() < 0.2, "is_connect": rng.random() < 0.2,
+                       "is_heartbeat": hb, "is_ack": rng.random() < 0.3}}
+    return hrnp, hstrp
+
+
+def _rand_fields(rng, E, proto, op):
+    ip = lambda: {"subnet": rng.choice([10, rng.randrange(256)]), "id": rng.randrange(2**24)}
+    rhex = lambda lo, hi: rng.randbytes(rng.randint(lo, hi)).hex()
+    rid = lambda: rng.choice([rng.randrange(2**24), rng.randrange(2**24, 2**32)])
+    if proto == "RRS":
+        f = {"ip": ip()}
+        if op == "RadioRegistrationAnswer":
+            f.update(result=rng.choice(E["rrs_result"]), renew=rng.randint(1, 0xFFFE))
+        if op == "RegistrationStatusCheckAnswer":
+            f.update(state=rng.choice(E["rrs_state"]))
+        return f
+    if proto == "LP":
+        f = {"request_id": rng.randrange(2**32), "ip": ip()}
+        if op == "StandardReport":
+            f["result"] = rng.choice(E["lp_result"])
+            f["gps"] = {"valid": rng.choice("AV"), "time": rng.choice([None, [rng.randrange(24), rng.randrange(60), rng.randrange(60)]]),
+                        "date": rng.choice([None, [rng.randint(2000, 2099), rng.randint(1, 12), rng.randint(1, 28)]]), "ns": rng.choice("NS"),
+                        "lat": rng.randrange(90) * 1000000 + rng.randrange(600000), "ew": rng.choice("EW"),
+                        "lon": rng.randrange(180) * 1000000 + rng.randrange(600000), "speed": rng.choice([0, rng.randint(1, 99) * 10]), "dir": rng.randrange(360)}
+        return f
+    if proto == "TMP":
+        f = {"confirmed": rng.random() < 0.5, "option": rng.choice([None, None, "", rhex(1, 12)]), "request_id": rng.randrange(2**32), "dst": ip()}
+        if op not in ("SendGroupMessageAck", "GroupShortDataAck"):
+            f["src"] = ip()
+        if op in ("SendPrivateMessage", "SendGroupMessage"):
+            f["text"] = "".join(rng.choice("abcXYZ 019éЖ中\U0001F600") for _ in range(rng.randrange(0, 24)))
+        elif op in ("PrivateShortData", "GroupShortData"):
+            f["short"] = rhex(0, 24)
+        else:
+            f["result"] = rng.choice(E["tmp_result"])
+        return f
+    res, ct = (lambda: rng.choice(E["rcp_result"])), (lambda: rng.choice(E["call_type"]))
+    if op == "UnknownService":
+        v = rng.randrange(65536)
+        while v in E["rcp_defined"]:
+            v = rng.randrange(65536)
+        return {"raw_opcode": v.to_bytes(2, "little").hex(), "raw_payload": rhex(0, 24)}
+    if op == "CallRequest":
+        return {"call_type": ct(), "target_id": rid()}
+    if op in ("CallReply", "BroadcastMessageConfigurationReply", "BroadcastStatusConfigurationReply", "StatusChangeNotificationReply"):
+        return {"result": res()}
+    if op == "RepeaterBroadcastTransmitStatus":
+        return {"mode": rng.choice(E["mode"]), "status": rng.choice(E["status"]), "service": rng.choice(E["service"]), "call_type": ct(), "target_id": rid(), "sender_id": rid()}
+    if op == "BroadcastMessageConfigurationRequest":
+        return {"broadcast_type": rng.randrange(256)}
+    if op == "RadioIDAndRadioIPQueryRequest":
+        return {"target": rng.choice(E["ip_target"])}
+    if op == "RadioIDAndRadioIPQueryReply":
+        return {"result": res(), "target": rng.choice(E["ip_target"]), "raw_value": rng.randbytes(4).hex()}
+    if op == "BroadcastStatusConfigurationRequest":
+        n = rng.randrange(0, 5)
+        return {"config": (bytes([n]) + rng.randbytes(2 * n)).hex()}
+    if op == "SendTalkerAliasRequest":
+        return {"call_type": ct(), "sender_id": rid(), "target_id": rid(), "alias_format": rng.choice(E["alias_format"]), "alias": rhex(0, 31)}
+    if op == "SendTalkerAliasReply":
+        return {"result": res(), "call_type": ct(), "sender_id": rid(), "target_id": rid()}
+    if op == "ZoneAndChannelOperationRequest":
+        return {"raw_payload": rng.randbytes(5).hex()}
+    if op == "ZoneAndChannelOperationReply":
+        return {"raw_payload": rng.randbytes(12).hex()}
+    if op == "StatusChangeNotificationRequest":
+        return {"settings": [[t, rng.choice(E["sc_setting"])] for t in rng.sample(E["sc_target"], rng.randrange(0, 6))]}
+    if op == "RadioStatusReport":
+        return {"status_target": rng.choice(E["sc_target"]), "status_value": rng.randrange(65536)}
+    raise HarnessError(f"no background generator for {proto}.{op}")
+
+
+def _bvals(lo: int, hi: int):
+    vals = [lo, lo + 1, hi - 1, hi, 1 << (hi.bit_length() - 1)]
+    if hi == 2**32 - 1:
+        vals += [2**24 - 1, 2**24]
+    if hi == 0xFFFF:
+        vals += [0xFF, 0x100]
+    return sorted({v for v in vals if lo <= v <= hi})
+
+
+F_INT = {"request_id": (0, 2**32 - 1), "renew": (1, 0xFFFE), "target_id": (0, 2**32 - 1), "sender_id": (0, 2**32 - 1), "broadcast_type": (0, 255), "status_value": (0, 0xFFFF)}
+ENV_INT = {("hrnp", "version"): (0, 4), ("hrnp", "block"): (0, 255), ("hrnp", "src"): (0, 255), ("hrnp", "dst"): (0, 255), ("hrnp", "pn"): (0, 0xFFFF),
+           ("hstrp", "version"): (0, 255), ("hstrp", "sn"): (0, 0xFFFF)}
+GPS_EDGES = {
+    "lat": [0, 1, 599999, 1000000, 9599999, 10000000, 89599999, 90000000],
+    "lon": [0, 1, 599999, 1000000, 9599999, 10000000, 99599999, 100000000, 179599999, 180000000],
+    "speed": [0, 10, 90, 100, 990],  # NUL form, 0.1, 0.9, 1.0, 9.9 knots: everything the three-character field can hold at its edges
+    "dir": [0, 1, 9, 10, 99, 100, 358, 359],
+    "time": [None, [0, 0, 0], [23, 59, 59], [0, 0, 1], [9, 9, 9]],
+    "date": [None, [2000, 1, 1], [2099, 12, 31], [2000, 2, 29], [2009, 9, 9], [2010, 10, 10]],
+}
+
+
+def _with(case, path, value):
+    import copy
+
+    c = copy.deepcopy(case)
+    d = c
+    for k in path[:-1]:
+        d = d[k]
+    d[path[-1]] = value
+    return c
+
+
+def _int_variants(case):
+    f = case["f"]
+    for k, (lo, hi) in F_INT.items():
+        if k in f:
+            for v in _bvals(lo, hi):
+                yield "int", _with(case, ("f", k), v)
+    for ipk in ("ip", "dst", "src"):
+        if ipk in f:
+            for v in _bvals(0, 255):
+                yield "int", _with(case, ("f", ipk, "subnet"), v)
+            for v in _bvals(0, 2**24 - 1):
+                yield "int", _with(case, ("f", ipk, "id"), v)
+    if "gps" in f:
+        for k, vals in GPS_EDGES.items():
+            for v in vals:
+                yield "gps", _with(case, ("f", "gps", k), v)
+        for ns, ew, valid in (("N", "E", "A"), ("S", "W", "V")):
+            yield "gps", _with(_with(_with(case, ("f", "gps", "ns"), ns), ("f", "gps", "ew"), ew), ("f", "gps", "valid"), valid)
+    for (env, k), (lo, hi) in ENV_INT.items():
+        for v in _bvals(lo, hi):
+            yield "envelope_int", _with(case, (env, k), v)
+    for rel in (False, True):
+        yield "flag", _with(case, ("rel",), rel)
+    if "confirmed" in f:
+        for conf in (False, True):
+            for opt in (None, "", "00", "ff" * 3):
+                yield "flag", _with(_with(case, ("f", "confirmed"), conf), ("f", "option"), opt)
+
+
+def _length_variants(rng, E, case):
+    p, op, f = case["proto"], case["op"], case["f"]
+    rb = lambda n: rng.randbytes(n).hex()
+    fill = lambda n: (bytes([rng.randrange(256)]) * n).hex()  # long fields: one repeated octet keeps replay files readable
+    if p == "TMP":
+        if "text" in f:
+            for n in [0, 1, 63, 64, 127, 128, 255, 256, 300, 122, 250]:  # 122 / 250 chars: HDAP length 0x0100 / 0x0200
+                yield "length", _with(_with(case, ("f", "text"), "".join(rng.choice("aZ9 é中") for _ in range(n))), ("f", "option"), None)
+            yield "length", _with(case, ("f", "text"), "\U0001F600" * 64)  # surrogate pairs only
+            if op in HUGE_OPS:
+                yield "length", _with(_with(case, ("f", "text"), "x" * ((65516 - 12) // 2)), ("f", "option"), None)
+        if "short" in f:
+            for n in PLAIN:
+                yield "length", _with(case, ("f", "short"), rb(n))
+            for L in _lens(op):
+                yield "length", _with(_with(case, ("f", "short"), fill(L - 12)), ("f", "option"), None)
+        fixed = 2 + 4 + 4 + (4 if "src" in f else 0) + (1 if "result" in f else len(bytes.fromhex(f["short"])) if "short" in f else len(f["text"].encode("utf-16-le")))
+        for n in PLAIN:
+            yield "length", _with(case, ("f", "option"), rb(n))
+        if "result" in f:  # acknowledgements: the option-length field and the HDAP length field at their octet edges through the option data
+            for L in _lens(op):
+                yield "length", _with(case, ("f", "option"), fill(L - fixed))
+            for n in [0xFF, 0x100, 0x1FF, 0x200] + ([0xFEFF, 0xFF00] if op in HUGE_OPS else []):
+                yield "length", _with(case, ("f", "option"), fill(n))
+    if p == "RCP":
+        if op == "UnknownService":
+            for n in PLAIN:
+                yield "length", _with(case, ("f", "raw_payload"), rb(n))
+            for L in _lens(op):
+                yield "length", _with(case, ("f", "raw_payload"), fill(L))
+        if "alias" in f:
+            for n in [0, 1, 127, 128, 244, 245, 254, 255]:  # 244 / 245: HDAP length 0x00ff / 0x0100 (little-endian)
+                yield "length", _with(case, ("f", "alias"), rb(n))
+        if "config" in f:
+            for n in [0, 1, 127, 128, 254, 255]:  # 127 -> length 0x00ff, 255 -> 0x01ff
+                yield "length", _with(case, ("f", "config"), (bytes([n]) + rng.randbytes(2 * n)).hex())
+        if "settings" in f:
+            for n in [0, 1, 2, len(E["sc_target"]) - 1, len(E["sc_target"])]:
+                yield "length", _with(case, ("f", "settings"), [[t, rng.choice(E["sc_setting"])] for t in rng.sample(E["sc_target"], n)])
+            yield "length", _with(case, ("f", "settings"), [[t, E["sc_setting"][i % len(E["sc_setting"])]] for i, t in enumerate(E["sc_target"])])
+
+
+def _option_variants(rng, case):
+    names = sorted(NATURAL_OPTION_LEN)
+    nat = lambda nm: [nm, rng.randbytes(NATURAL_OPTION_LEN[nm]).hex()]
+    lists = [[]] + [[nat(nm)] for nm in names]
+    for nm in names:
+        o = nat(nm)
+        lists += [[o, o], [o] * 6]
+    lists.append([nat(names[i % len(names)]) for i in range(16)])
+    lists.append([nat(nm) for nm in names] + [nat(nm) for nm in reversed(names)])
+    for n in (0, 1, 127, 128, 255):
+        lists.append([["DeviceID", rng.randbytes(n).hex()]])
+        lists.append([["ChannelID", rng.randbytes(n).hex()], ["RTP", ""], ["XPTIndex", rng.randbytes(n).hex()]])
+    for opts in lists:
+        c = _with(case, ("hstrp", "options"), opts)
+        c["hstrp"]["flags"]["have_options"] = bool(opts)
+        if opts:
+            c["hstrp"]["flags"]["is_heartbeat"] = False
+        yield "options", c
+
+
+def _reference_frame(case):
+    """HDAP frame of a case: from the layout reference where there is one, else (RCP) serialised by the library"""
+    want = expected_payload(case)
+    if want is not None:
+        return ref.hdap_frame(case["proto"], case["rel"], expected_opcode_octets(case), want)
+    try:
+        return build_pdu(case).as_bytes()
+    except Exception:
+        return None
+
+
+def _steer_octet(case):
+    """(path, kind) of one payload octet that can take any value"""
+    f = case["f"]
+    for k in ("request_id", "target_id", "sender_id", "status_value", "broadcast_type"):
+        if k in f:
+            return ("f", k), "int"
+    if "ip" in f:
+        return ("f", "ip", "id"), "int"
+    for k in ("raw_value", "raw_payload", "alias"):
+        if f.get(k):
+            return ("f", k), "hex"
+    if len(f.get("config", "")) > 2:
+        return ("f", "config"), "hex"
+    return None, None
+
+
+def _checksum_variants(case):
+    # HDAP checksum octet -> 0x00 / 0xFF by solving the low octet of one free field (sum changes by the same amount)
+    frame = _reference_frame(case)
+    path, kind = _steer_octet(case)
+    if frame is not None and path is not None:
+        for target in (0x00, 0xFF):
+            delta = (frame[-2] - target) & 0xFF
+            cur = case
+            for k in path:
+                cur = cur[k]
+            if kind == "int":
+                new = (cur & ~0xFF) | ((cur + delta) & 0xFF)
+            else:
+                b = bytearray.fromhex(cur)
+                b[-1] = (b[-1] + delta) & 0xFF
+                new = b.hex()
+            c = _with(case, path, new)
+            fr = _reference_frame(c)
+            if fr is not None and fr[-2] == target:
+                yield f"hdap_checksum_{target:02x}", c
+    # HRNP checksum -> 0x0000 / 0x0001 / 0xFFFE and the double-carry class, by solving the packet number on the reference
+    if frame is not None:
+        h = case["hrnp"]
+        for target in ("double_carry", 0x0000, 0x0001, 0xFFFE):
+            for pn in _solve_pn(h, frame, target):
+                yield f"hrnp_checksum_{target if isinstance(target, str) else '%04x' % target}", _with(case, ("hrnp", "pn"), pn)
+                break
+
+
+def _hrnp_raw_sum(h, data: bytes, pn: int, opcode: int = 0) -> int:
+    pkt = bytes([0x7E, h["version"], h["block"], opcode, h["src"], h["dst"]]) + pn.to_bytes(2, "big") + (12 + len(data)).to_bytes(2, "big") + bytes(data)
+    if len(pkt) % 2:
+        pkt += b"\x00"
+    return sum((pkt[i] << 8) | pkt[i + 1] for i in range(0, len(pkt), 2))
+
+
+def _solve_pn(h, data: bytes, target, opcode: int = 0):
+    """packet numbers for which the reference HRNP checksum equals ``target`` (or whose sum needs a second end-around carry)"""
+    s0 = _hrnp_raw_sum(h, data, 0, opcode)
+    if target == "double_carry":
+        for c in range(1, 64):
+            for k in range(c):
+                pn = (c << 16) + 0xFFFF - k - s0
+                if 0 <= pn <= 0xFFFF:
+                    yield pn
+        return
+    folded = s0
+    while folded > 0xFFFF:
+        folded = (folded & 0xFFFF) + (folded >> 16)
+    want = (~target) & 0xFFFF
+    for pn in sorted({(want - folded) % 0xFFFF, (want - folded) % 0xFFFF + 0xFFFF, (want - folded) & 0xFFFF}):
+        if 0 <= pn <= 0xFFFF and ref.hrnp_frame(h["version"], h["block"], opcode, h["src"], h["dst"], pn, data)[10:12] == target.to_bytes(2, "big"):
+            yield pn
+
+
+def boundary_cases_pdu(rng, E, proto, op):
+    for bg in range(2):
+        hrnp, hstrp = _rand_envelopes(rng)
+        base = {"proto": proto, "op": op, "rel": bool(bg), "f": _rand_fields(rng, E, proto, op), "hrnp": hrnp, "hstrp": hstrp}
+        yield "background", base
+        yield from _int_variants(base)
+        yield from _length_variants(rng, E, base)
+        yield from _checksum_variants(base)
+        yield from _option_variants(rng, base)
+
+
+def boundary_cases_transport(rng):
+    for opcode in [k for k in ref.HRNP_OPCODES if k != "DATA"]:
+        for bg in range(2):
+            h, _ = _rand_envelopes(rng)
+            base = {"kind": "hrnp", "hrnp": dict(h, opcode=opcode)}
+            yield "background", base
+            for (env, k), (lo, hi) in ENV_INT.items():
+                if env == "hrnp":
+                    for v in _bvals(lo, hi):
+                        yield "envelope_int", _with(base, ("hrnp", k), v)
+            for target in ("double_carry", 0x0000, 0x0001, 0xFFFE):
+                for pn in _solve_pn(h, b"", target, ref.HRNP_OPCODES[opcode]):
+                    yield f"hrnp_checksum_{target if isinstance(target, str) else '%04x' % target}", _with(base, ("hrnp", "pn"), pn)
+                    break
+    for bits in range(32):
+        _, env = _rand_envelopes(rng)
+        env["flags"].update(is_reject=bool(bits & 1), is_close=bool(bits & 2), is_connect=bool(bits & 4), is_ack=bool(bits & 8), is_heartbeat=bool(bits & 16) and not env["options"])
+        base = {"kind": "hstrp", "hstrp": env}
+        yield "background", base
+        for k in ("version", "sn"):
+            for v in _bvals(*ENV_INT[("hstrp", k)]):
+                yield "envelope_int", _with(base, ("hstrp", k), v)
+        if bits % 8 == 0:
+            yield from _option_variants(rng, base)
+
+
+def run_boundary(ctx: Ctx, sub: SubCheck, items, gen):
+    """items: shard keys; gen(rng, item) yields (class label, case).  Distinct by construction (duplicates are dropped)."""
+    E = _enum_names()
+
+    def work(item, t: Tally):
+        rng = ctx.rng("boundary", sub.name, item)
+        seen = set()
+        n_sampled = 0
+        for label, case in gen(rng, E, item):
+            import json
+
+            k = json.dumps(case, sort_keys=True)
+            if k in seen:
+                continue
+            seen.add(k)
+            ctx.run_case(sub.name, sub.oracle, case, t)
+            nt = classify(case)[0] if "proto" in case else True
+            t.case(sub.name, nontrivial=nt, cls=f"boundary.{label}")
+            if len(k) < 1500 and n_sampled < 1 and label not in ("background",):
+                t.sample(sub.name, case)
+                n_sampled += 1
+
+    ctx.shards(work, items)
+    ctx.tally.notes.append(f"{sub.name}: deterministic boundary pass (every integer field at min/min+1/max-1/max/top bit, length-field octet edges, steered checksums, option lists) runs before the Hypothesis search")
+
+
 # ------------------------------------------------------------------------------------------------------ drivers
 
 
-BUDGET = {"RRS": (120, 2000), "LP": (480, 12000), "TMP": (160, 5000), "RCP": (100, 3000)}  # cases per opcode (quick, thorough)
+BUDGET = {"RRS": (240, 12000), "LP": (960, 72000), "TMP": (320, 30000), "RCP": (200, 18000)}  # Hypothesis cases per opcode (quick, thorough)
 
 
 def make_driver(proto: str):
     def drv(ctx: Ctx, sub: SubCheck):
         pdu_cases, _ = _strategies()
         ops = list(OPS[proto])
+        run_boundary(ctx, sub, ops, lambda rng, E, op: boundary_cases_pdu(rng, E, proto, op))
         per_op = ctx.pick(*BUDGET[proto])
-        split = max(1, 16 // len(ops))
+        split = -(-32 // len(ops))  # about 32 shards per protocol: balanced over 16 workers
         items = [(op, j) for op in ops for j in range(split)]
 
         def work(item, t: Tally):
@@ -630,9 +1029,10 @@ def make_driver(proto: str):
 
 def drv_transport(ctx: Ctx, sub: SubCheck):
     _, transport = _strategies()
+    run_boundary(ctx, sub, ["hrnp+hstrp"], lambda rng, E, item: boundary_cases_transport(rng))
 
     def work(i, t: Tally):
-        ctx.hypothesis(sub.name, transport, oracle_transport, ctx.pick(60, 1500), tally=t, shard=i, record=record_transport)
+        ctx.hypothesis(sub.name, transport, oracle_transport, ctx.pick(150, 9000), tally=t, shard=i, record=record_transport)
 
     ctx.shards(work, list(range(8)))
 
